@@ -359,7 +359,16 @@ def rule_g(ctx, ix):
                 return ast.BinOp(left=ast.Name(id='ANGLE', ctx=ast.Load()), op=ast.Mod(), right=ast.Name(id='PERIOD', ctx=ast.Load()))
             return self.generic_visit(n)
     for fn in [n for n in ast.walk(mod.tree) if isinstance(n, ast.FunctionDef)]:
-        for t in [x.test for x in ast.walk(fn) if isinstance(x, (ast.If, ast.IfExp, ast.While))]:
+        from ..util import expand_locals
+        for t0 in [x.test for x in ast.walk(fn) if isinstance(x, (ast.If, ast.IfExp, ast.While))]:
+            # `q = theta % period; if isclose(q, 0)`: the test is read with the local spelled out
+            t = expand_locals(fn, t0)
+            if t is not t0:
+                for x_ in ast.walk(t):
+                    if not hasattr(x_, 'lineno') and isinstance(x_, (ast.expr, ast.stmt)):
+                        x_.lineno = t0.lineno
+                    elif hasattr(x_, 'lineno'):
+                        x_.lineno = t0.lineno
             for c in ast.walk(t):
                 # the comparison around `angle % period`: a call (np.isclose(...)) or a compare, with anything chained on it (.any())
                 if isinstance(c, (ast.Call, ast.Compare)) and any(isinstance(b, ast.BinOp) and isinstance(b.op, ast.Mod) and
